@@ -356,6 +356,9 @@ func runC11(r *Run) {
 		runValidate(c11GenValidate(r))
 	}
 
+	// ---- informational: beyond the premium-magnitude guard (float error no longer below half a satoshi) ----
+	c11BeyondGuard(r, r.N/20)
+
 	// ---- (4b) validateOrder on a manager that holds a pending batch ----
 	g := &bGen{rng: r.Rng, search: r.Search, prop: "C11"}
 	for i := 0; i < r.N/40+20 && len(r.Violations) < 20; i++ {
@@ -685,6 +688,23 @@ func c11RunFills(r *Run, c c11Case, fromGen bool) {
 	kind := "bid"
 	if !o.IsBid {
 		kind = "ask"
+	}
+	if c.Expect == "exceeds" && !in && !panicked && len(c.Fills) > 0 {
+		// a guard witness outside the domain (premium guard): only record whether the real code reproduces it
+		total := big.NewInt(0)
+		for _, f := range c.Fills {
+			d, err := c11Debit(o, ours, fs, c.Ver, []c11Fill{f})
+			if err != nil {
+				return
+			}
+			total.Add(total, big.NewInt(d))
+		}
+		if total.Cmp(new(big.Int).Add(big.NewInt(rv), big.NewInt(2*int64(len(c.Fills))))) > 0 {
+			r.Count("witness/guard-needed-reproduced")
+		} else {
+			r.Count("witness/guard-needed-NOT-reproduced")
+		}
+		return
 	}
 	switch {
 	case c11Archived(o.State):
@@ -1529,5 +1549,48 @@ func c11RunValidatePending(r *Run, c c11Case) {
 		r.Count("oracle/violation")
 		r.Violate(fmt.Sprintf("verdict %s before the batch was accepted, %s while it is pending – stored orders and the "+
 			"account only change at BatchFinalize", before, got), "C11/pending-batch-changes-verdict", c)
+	}
+}
+
+
+// c11BeyondGuard probes bids whose premium is far above 2^48 sat (outside the domain of the theorems, inside int64):
+// there the accumulated float rounding can exceed the two-satoshi tolerance. Nothing is reported; the counts document
+// that the premium guard of the theorems is not an artefact.
+func c11BeyondGuard(r *Run, n int) {
+	for i := 0; i < n; i++ {
+		var o c11Order
+		o.IsBid = true
+		o.Version, o.State = 2, 0
+		o.MinUnits = 1000 + uint64(r.Rng.Intn(100000))
+		o.Unfilled = o.MinUnits * uint64(3+2*r.Rng.Intn(3))
+		o.Units, o.Amt = o.Unfilled, int64(o.Unfilled)*100000
+		o.MaxFee = 253
+		o.Rate = uint32(1_000_000_000 + r.Rng.Intn(3_000_000_000))
+		// premium of the whole order between 2^53 and 2^61
+		target := new(big.Int).Lsh(big.NewInt(1), uint(55+r.Rng.Intn(8)))
+		target.Mul(target, big.NewInt(1_000_000_000))
+		target.Quo(target, big.NewInt(o.Amt))
+		target.Quo(target, big.NewInt(int64(o.Rate)))
+		if !target.IsInt64() || target.Int64() < 1 || target.Int64() > math.MaxUint32 {
+			continue
+		}
+		o.Dur = uint32(target.Int64())
+		fs := terms.NewLinearFeeSchedule(0, 0)
+		ours := o.real(1)
+		rv, pnk := c11Reserved(ours, fs, 0)
+		if pnk {
+			continue
+		}
+		one, err := c11Debit(o, ours, fs, 0, []c11Fill{{Units: o.Unfilled, Price: o.Rate, FeeRate: 253}})
+		if err != nil {
+			continue
+		}
+		r.Count("info/beyond-guard")
+		if one > rv+2 {
+			r.Count("info/beyond-guard/single-fill-exceeds-reserve+2")
+			if len(r.Notes) < 3 {
+				r.Notes = append(r.Notes, fmt.Sprintf("beyond premium guard: %s single fill debit %d > reserved %d + 2", o.token(), one, rv))
+			}
+		}
 	}
 }
